@@ -344,8 +344,9 @@ def uSpawnLoop (s : St) (k : Nat) : St :=
   if s.procDict.length < s.cfg.maxWorkers then setU s k .subExit
   else if s.mpc = .none then setU s k .subTStart else setU s k .subRelMgmt
 
+/-- the future the caller holds for task `t`: the latest submission of `t` whose `submit` has returned -/
 def widOfTask (s : St) (t : Tid) : Option Wid :=
-  let idx := s.taskOf.zipIdx.filter (fun p => p.1 == t)
+  let idx := (s.taskOf.take s.visible).zipIdx.filter (fun p => p.1 == t)
   idx.getLast?.map (·.2)
 
 def setW (s : St) (p : Pid) (pc : WPc) : St := { s with w := upd s.w p pc }
